@@ -54,7 +54,7 @@ def mkframe(rng, names, nrows=12):
     return {n: [rng.choice(['', 'x', 'y', 'é', '10', '9']) if i else str(r % 2) for r in range(nrows)] for i, n in enumerate(names)}
 
 
-def check_batch(V, key, job, kind, cap, ncand, names_all, spec_pairs, label_name, trip):
+def check_batch(V, key, job, kind, cap, ncand, names_all, spec_pairs, label_name, trip, ndup=0):
     """The C06 clauses on one recorded batch (harness-side mirror of TraceRankGraph.RecordOK, used
     to name the failing clause; TLC gives the verdict for the seeded runs)."""
     pairs = {frozenset((a, b)) for a, b, _ in trip}
@@ -63,9 +63,10 @@ def check_batch(V, key, job, kind, cap, ncand, names_all, spec_pairs, label_name
     if not pairs <= sp:
         extra = sorted(sorted(p) for p in pairs - sp)[:4]
         V.violation('foreign-pair:' + key, f'evaluated pairs not requested: {extra}', job); bad = True
-    nsel = len(trip) if kind == 'Constant' else len(trip) // 2
-    if nsel != min(cap, ncand):
-        V.violation('count:' + key, f'{nsel} candidates evaluated, cap={cap}, candidates={ncand}', job); bad = True
+    # the evaluated pairs are reduced only by the cap: exactly min(cap, #candidates) candidates, of which at most
+    # `ndup` are repetitions of a pair already listed (diagonal pairs are listed twice in pairwise mode)
+    if not (min(cap, ncand) - ndup <= len(pairs) <= min(cap, ncand)):
+        V.violation('count:' + key, f'{len(pairs)} distinct pairs evaluated, cap={cap}, candidates={ncand} ({ndup} repeated)', job); bad = True
     if cap >= ncand and pairs != sp and pairs <= sp:
         V.violation('missing-pair:' + key, f'requested pairs not evaluated: {sorted(sorted(p) for p in sp - pairs)[:4]}', job); bad = True
     if kind != 'Constant':
@@ -137,7 +138,8 @@ def main():
                     V.violation('enumeration:' + key, f'candidate pairs differ from the requested ones: extra {extra[:4]} missing {missing[:4]}', job)
                     break
                 trip = [[a, c, s] for a, c, s in ob['trip']]
-                if not check_batch(V, f'{key} batch={b}', job, cs['heur'], cs['cap'], len(ob['combos']), set(job['columns']), spec_pairs, nm[lab], trip):
+                ndup = len(ob['combos']) - len({frozenset(c) for c in ob['combos']})
+                if not check_batch(V, f'{key} batch={b}', job, cs['heur'], cs['cap'], len(ob['combos']), set(job['columns']), spec_pairs, nm[lab], trip, ndup):
                     break
                 exp = sorted(sorted(nm[c] for c in p) for p in sel)
                 gotp = sorted(sorted(p) for p in {frozenset((a, c)) for a, c, _ in trip})
@@ -193,7 +195,7 @@ def main():
                 continue
             ob = r['ok'][0]
             recs.append({'cols': job['columns'], 'rel': [n for n in job['columns'] if ' AND_REL ' in n], 'label': label, 'mode': mode, 'kind': kind,
-                         'cap': cap, 'ncand': len(ob['combos']), 'trip': [[a, b, int(round(s * 2 ** 20)) if s == s else 0] for a, b, s in ob['trip']], 'key': key})
+                         'cap': cap, 'ncand': len(ob['combos']), 'ndup': len(ob['combos']) - len({frozenset(c) for c in ob['combos']}), 'trip': [[a, b, int(round(s * 2 ** 20)) if s == s else 0] for a, b, s in ob['trip']], 'key': key})
         tf = os.path.join(wd, 'rg.ndjson')
         cfg = E.write_cfg(os.path.join(wd, 't.cfg'), spec='Spec', postcondition='Accepted')
 
@@ -222,7 +224,7 @@ def main():
             else:
                 sp = [[a, b] for a in C for b in C]
             capeff = min(badrec['cap'], 10000) if badrec['kind'] == 'scoring3mr' else badrec['cap']
-            if check_batch(V, badrec['key'], job, badrec['kind'], capeff, badrec['ncand'], C, sp, badrec['label'], badrec['trip']):
+            if check_batch(V, badrec['key'], job, badrec['kind'], capeff, badrec['ncand'], C, sp, badrec['label'], badrec['trip'], badrec['ndup']):
                 V.violation('trace-rejected:' + badrec['key'], 'TraceRankGraph rejects the recorded batch', job)
             rest = rest[res.depth:] if 0 < res.depth <= len(rest) else rest[1:]
             if not rest:
